@@ -29,9 +29,9 @@ def parseBits (s : String) : Option (List Bool) :=
     | '1', some l => some (true :: l)
     | _, _ => none) (some [])
 
-def scriptsArr : Array Script := CssVerif.Gen.C11.scripts.toArray
+def scriptsArr : Array Script := (CssVerif.Gen.C11.scripts ++ CssVerif.Gen.C11.internalScripts).toArray
 
-def drvWorld : World := ⟨fun _ => CssVerif.Gen.C11.scripts, fun _ => St.init false⟩
+def drvWorld : World := ⟨fun _ => CssVerif.Gen.C11.scripts ++ CssVerif.Gen.C11.internalScripts, fun _ => St.init false⟩
 
 def showRes (sc : Script) (st0 : St) (r : Res) : String :=
   let dirty := sc.fields.filter fun f => r.st.cur f != st0.cur f
